@@ -48,6 +48,9 @@ type Chain struct {
 	LastUpdates []abci.ValidatorUpdate
 	// evidence of misbehaviour the next block carries (consumed by Block)
 	NextEvidence []abci.Evidence
+	// the consensus validator set per height (index of the genesis validator -> power), as Tendermint keeps it: the
+	// updates EndBlock(h) returns take effect at h+2
+	sets map[int64]map[int]int64
 }
 
 type emptyOpts struct{}
@@ -59,7 +62,7 @@ var BondAmt = sdk.TokensFromConsensusPower(100, sdk.DefaultPowerReduction)
 func addr(seed string) []byte { return tmhash.SumTruncated([]byte(seed)) }
 
 // New starts a chain of the real application with n bonded genesis validators (100 power each) and one funded user.
-// x/slashing's window is 4 blocks (a validator missing more than half of them is jailed).
+// x/slashing's window is 4 blocks (a validator missing more than half of them is jailed); x/staking's unbonding time is 10 s.
 func New(n int) *Chain {
 	dir, err := os.MkdirTemp("/dev/shm", "apph")
 	if err != nil {
@@ -103,7 +106,9 @@ func New(n int) *Chain {
 	cdc := enc.Marshaler
 	genesis[authtypes.ModuleName] = cdc.MustMarshalJSON(authtypes.NewGenesisState(authtypes.DefaultParams(), accs))
 	genesis[banktypes.ModuleName] = cdc.MustMarshalJSON(banktypes.NewGenesisState(banktypes.DefaultGenesisState().Params, balances, supply, nil))
-	genesis[stakingtypes.ModuleName] = cdc.MustMarshalJSON(stakingtypes.NewGenesisState(stakingtypes.DefaultParams(), vals, dels))
+	stp := stakingtypes.DefaultParams()
+	stp.UnbondingTime = 10 * time.Second // two blocks: a validator that withdrew everything is removed from x/staking within a short path
+	genesis[stakingtypes.ModuleName] = cdc.MustMarshalJSON(stakingtypes.NewGenesisState(stp, vals, dels))
 	sp := slashingtypes.DefaultParams()
 	sp.SignedBlocksWindow = 4
 	sp.DowntimeJailDuration = 10 * time.Second
@@ -142,9 +147,19 @@ func (c *Chain) Block(signed []bool, msgs []*Msg) (f *Failure) {
 	c.Height++
 	c.Time = c.Time.Add(5 * time.Second)
 	header := tmproto.Header{ChainID: "apph", Height: c.Height, Time: c.Time, ProposerAddress: c.Vals[0].Cons}
+	// the last commit is that of the previous block: signed by the set that was in force there
 	var votes []abci.VoteInfo
+	if c.sets == nil {
+		g := map[int]int64{}
+		for i := range c.Vals {
+			g[i] = 100
+		}
+		c.sets = map[int64]map[int]int64{0: g, 1: g, 2: g}
+	}
 	for i, v := range c.Vals {
-		votes = append(votes, abci.VoteInfo{Validator: abci.Validator{Address: v.Cons, Power: 100}, SignedLastBlock: signed[i]})
+		if p, ok := c.sets[c.Height-1][i]; ok {
+			votes = append(votes, abci.VoteInfo{Validator: abci.Validator{Address: v.Cons, Power: p}, SignedLastBlock: signed[i]})
+		}
 	}
 	stage := "BeginBlock"
 	defer func() {
@@ -182,6 +197,29 @@ func (c *Chain) Block(signed []bool, msgs []*Msg) (f *Failure) {
 	}
 	stage = "EndBlock"
 	c.LastUpdates = c.App.EndBlock(abci.RequestEndBlock{Height: c.Height}).ValidatorUpdates
+	base := c.sets[c.Height+1]
+	if base == nil {
+		base = c.sets[c.Height]
+	}
+	next := map[int]int64{}
+	for i, p := range base {
+		next[i] = p
+	}
+	for _, u := range c.LastUpdates {
+		for i, v := range c.Vals {
+			if string(u.PubKey.GetEd25519()) == string(v.ConsPriv.PubKey().Bytes()) {
+				if u.Power == 0 {
+					delete(next, i)
+				} else {
+					next[i] = u.Power
+				}
+			}
+		}
+	}
+	if c.sets[c.Height+1] == nil {
+		c.sets[c.Height+1] = base
+	}
+	c.sets[c.Height+2] = next
 	stage = "Commit"
 	c.LastHash = c.App.Commit().Data
 	return nil
